@@ -343,6 +343,42 @@ fn string_laws(s: &str) -> Vec<Law> {
         }
     }
     laws.push(law("str-includes-self", "includes(s, s)", Some(RV::Bool(true))));
+    // every contiguous sub-sequence of characters is included; a foreign character is not
+    for a in 0..n {
+        for b in (a + 1)..=n {
+            let sub: String = s.chars().skip(a).take(b - a).collect();
+            laws.push(Law { name: "str-includes-sub", program: format!("includes(s, {})", str_src(&sub)), expected: Some(RV::Bool(true)) });
+        }
+    }
+    laws.push(law("str-includes-foreign", "includes(s, \"\u{2603}\")", Some(RV::Bool(false))));
+    // replace acts on the character sequence: deleting / doubling every occurrence of one character
+    let mut distinct: Vec<char> = vec![];
+    for c in s.chars() {
+        if !distinct.contains(&c) {
+            distinct.push(c);
+        }
+    }
+    for c in &distinct {
+        let cs = c.to_string();
+        let removed: String = s.chars().filter(|x| x != c).collect();
+        let doubled: String = s.chars().flat_map(|x| if x == *c { vec![x, x] } else { vec![x] }).collect();
+        laws.push(Law { name: "str-replace", program: format!("replace(s, {}, \"\")", str_src(&cs)), expected: Some(RV::Str(removed)) });
+        laws.push(Law { name: "str-replace", program: format!("replace(s, {}, {})", str_src(&cs), str_src(&format!("{}{}", c, c))), expected: Some(RV::Str(doubled)) });
+        laws.push(Law { name: "str-replace", program: format!("replace(s, {}, {})", str_src(&cs), str_src(&cs)), expected: Some(me.clone()) });
+    }
+    laws.push(law("str-replace-foreign", "replace(s, \"\u{2603}\", \"x\")", Some(me.clone())));
+    // case mapping is character-wise on this alphabet (no context-sensitive or expanding mappings in it)
+    laws.push(law("str-uppercase-charwise", "join([...s] via uppercase, \"\") == uppercase(s)", Some(RV::Bool(true))));
+    laws.push(law("str-lowercase-charwise", "join([...s] via lowercase, \"\") == lowercase(s)", Some(RV::Bool(true))));
+    laws.push(law("str-case-len", "[len(uppercase(s)), len(lowercase(s))]", Some(RV::List(vec![num(n), num(n)]))));
+    laws.push(law("str-uppercase", "uppercase(s)", Some(RV::Str(s.to_uppercase()))));
+    laws.push(law("str-lowercase", "lowercase(s)", Some(RV::Str(s.to_lowercase()))));
+    // trim removes blanks at both ends only (checked where ASCII and Unicode notions of blank agree)
+    let ascii_ws = |c: char| c == ' ' || c == '\n' || c == '\t' || c == '\r';
+    if s.trim() == s.trim_matches(ascii_ws) {
+        laws.push(law("str-trim", "trim(s)", Some(RV::Str(s.trim().to_string()))));
+    }
+    laws.push(law("str-to_string", "to_string(s)", Some(me.clone())));
     laws.push(law("str-record-spread", "{...s}", Some(RV::Rec(ch.iter().enumerate().map(|(i, c)| (i.to_string(), c.clone())).collect()))));
     laws
 }
